@@ -664,7 +664,7 @@ class SessionEngine(Engine):
     prop = P
     name = "session"
     level = "fault_enumeration"
-    tiers = {"quick": 400, "thorough": 20000}
+    tiers = {"quick": 400, "thorough": 8000}
     rule = (
         "per sampled session (3-20 external events: key/mouse byte sequences, some fragmented, resizes, alarms set before "
         "the run and from alarm callbacks, watch_pipe writes, watch_file arrivals, final quit key; loop kind x screen with/"
